@@ -1209,8 +1209,68 @@ let run_c07 file =
   close_in ic;
   Printf.printf "SUMMARY cases=%d disagreements=%d impl_failures=%d impl_errors=0 builds=%d timestamps=%d\n" !n !n_dis !n_fail !n_b !n_s
 
+(* ---------- C10 ---------- *)
+let c10_clause_name = function
+  | SUnexpectedError -> "signing-configured-but-packaging-failed"
+  | SSilentSuccess -> "package-reported-although-signing-must-fail"
+  | SErrorNotASigningFailure -> "error-is-not-a-signing-failure"
+  | SErrorHidesCause -> "error-does-not-wrap-the-signers-error"
+  | SMemberName g -> "signature-member-misplaced:" ^ implode g
+  | SMissing w -> "signature-missing:" ^ implode w
+  | SVerify (w, who) -> Printf.sprintf "signature-does-not-verify:%s(%s)" (implode w) (implode who)
+  | SManifest m -> "dpkg-sig-manifest-does-not-match:" ^ implode m
+  | SRole r -> "dpkg-sig-role:" ^ implode r
+  | SCallbackBytes -> "callback-got-other-bytes"
+
+let run_c10 file =
+  let n = ref 0 and n_dis = ref 0 and n_fail = ref 0 and n_v = ref 0 and n_gpg = ref 0 and n_cb = ref 0 and n_err = ref 0 in
+  let ic = open_in file in
+  let id = ref "" and fmt = ref "" and expect = ref "" and cbf = ref false and okr = ref false and asg = ref false and wraps = ref false
+  and meth = ref "" and typ = ref "" and last = ref "" and nm = ref 0 and kn = ref "" and mt = ref "" and first = ref ""
+  and verify = ref [] and manifest = ref [] and role = ref None and cb = ref None and errmsg = ref "" and seen = ref false in
+  (try
+     while true do
+       let line = input_line ic in
+       let t = Array.of_list (String.split_on_char ' ' line) in
+       match t.(0) with
+       | "scase" -> id := t.(1); fmt := unhexs t.(2); expect := ""; cbf := false; okr := false; asg := false; wraps := false;
+         meth := ""; typ := ""; last := ""; nm := 0; kn := ""; mt := ""; first := ""; verify := []; manifest := []; role := None; cb := None; errmsg := ""; seen := false
+       | "sexpect" -> expect := unhexs t.(1); cbf := t.(2) = "1"
+       | "sres" -> seen := true; okr := t.(1) = "ok"; asg := t.(2) = "1"; wraps := t.(3) = "1"; errmsg := unhexs t.(4); if not !okr then incr n_err
+       | "sdebtype" -> typ := unhexs t.(1); meth := unhexs t.(2)
+       | "slast" -> last := unhexs t.(1); nm := int_of_string t.(2)
+       | "sapkname" -> kn := unhexs t.(1); mt := unhexs t.(2); first := unhexs t.(3)
+       | "sverify" ->
+         incr n_v; if t.(3) <> "-" then incr n_gpg;
+         verify := ((unhex t.(1), t.(2) = "1"), (match t.(3) with "1" -> Some true | "0" -> Some false | _ -> None)) :: !verify
+       | "smanifest" -> manifest := (unhex t.(1), t.(2) = "1") :: !manifest
+       | "srole" -> role := Some (unhex t.(1))
+       | "scallback" -> incr n_cb; cb := Some (t.(2) = "1")
+       | "send" ->
+         if !seen then begin
+           incr n;
+           let o = { o_format = explode !fmt; o_expect = explode !expect; o_cb_fails = !cbf; o_ok = !okr; o_as_signing = !asg; o_wraps = !wraps;
+                     o_method = explode !meth; o_type = explode !typ; o_last = explode !last; o_nmembers = nat_of_int !nm;
+                     o_keyname = explode !kn; o_maintainer = explode !mt; o_first = explode !first; o_sigs = [];
+                     o_verify = List.rev !verify; o_manifest = List.rev !manifest; o_role = !role; o_callback = !cb } in
+           let cl = check_C10 o in
+           if cl <> [] then begin
+             incr n_dis; incr n_fail;
+             report !id false (List.map c10_clause_name cl) []
+               [Printf.sprintf "%s, expected %s: %s%s" !fmt !expect (if !okr then "package built" else "error: " ^ !errmsg)
+                  (if !okr && !fmt = "deb" then Printf.sprintf "; last member %s of %d, method %S type %S" !last !nm !meth !typ
+                   else if !okr && !fmt = "apk" then Printf.sprintf "; first member %s, key name %S, maintainer %S" !first !kn !mt else "")]
+           end
+         end
+       | _ -> ()
+     done
+   with End_of_file -> ());
+  close_in ic;
+  Printf.printf "SUMMARY cases=%d disagreements=%d impl_failures=%d impl_errors=0 signatures_verified=%d of_which_also_by_gpg=%d callbacks=%d failing_signers=%d\n" !n !n_dis !n_fail !n_v !n_gpg !n_cb !n_err
+
 let () =
   match Sys.argv with
+  | [| _; "C10"; file |] -> run_c10 file
   | [| _; "C07"; file |] -> run_c07 file
   | [| _; "C06"; file |] -> run_c06 file
   | [| _; "C12"; file |] -> run_c12 file
